@@ -493,6 +493,8 @@ def answer (line : String) : String :=
   | "C15" :: rest => c15 rest
   | "C18" :: rest => c18 rest
   | "C04" :: rest => c04 rest
+  | ["C01", "mergeout", o, n] => (match unhex o, unhex n with
+      | some o, some n => hex (Flt.mergeDriverOutput o n) | _, _ => "bad-op")
   | _ => "bad-op"
 
 partial def loop (h : IO.FS.Stream) (out : IO.FS.Stream) : IO Unit := do
